@@ -847,6 +847,21 @@ def main():
         write_if_changed(os.path.join(GEN, "EqGen.lean"),
                          "import CatiiModel.IIndex\n-- translation FAILED: %s\n" % str(e).replace("\n", " ")[:300])
         status = 3
+    try:
+        import translate_indx
+        write_if_changed(os.path.join(GEN, "IndxSaveGen.lean"), translate_indx.generate(rd("indxio.py")))
+        try:
+            write_if_changed(os.path.join(GEN, "IndxLoadGen.lean"), translate_indx.generate_load(rd("indxio.py")))
+        except (translate_indx.Unsupported, SyntaxError, KeyError, IndexError, AttributeError, StopIteration) as e:
+            print("translate: IndxIO.load outside the translatable subset: %s" % e, file=sys.stderr)
+            write_if_changed(os.path.join(GEN, "IndxLoadGen.lean"),
+                             "import CatiiModel.Indx\n-- translation FAILED: %s\n" % str(e).replace("\n", " ")[:300])
+            status = 3
+    except (translate_indx.Unsupported, SyntaxError, KeyError, IndexError, AttributeError, StopIteration) as e:
+        print("translate: IndxIO.save outside the translatable subset: %s" % e, file=sys.stderr)
+        write_if_changed(os.path.join(GEN, "IndxSaveGen.lean"),
+                         "import CatiiModel.Indx\n-- translation FAILED: %s\n" % str(e).replace("\n", " ")[:300])
+        status = 3
     return status
 
 
